@@ -208,7 +208,10 @@ def mode_exclude(ctx, case):
                 return
         if rest and opts["exclude"] is not None:
             ctx.monitor("exclude_never_written")
-            if syncgen.excluded(opts, rest[-1]) and after.get(path, ("x",))[0] != "d":
+            # the job's own state point file and document (top level of the job directory) are not data files: every
+            # sync route handles them apart from the file comparison, whatever the patterns match
+            own = len(rest) == 1 and rest[0] in (model.SP_FILE, model.DOC_FILE)
+            if syncgen.excluded(opts, rest[-1]) and not own and after.get(path, ("x",))[0] != "d":
                 newly = jid + os.sep + model.SP_FILE not in {p[len(ws):] for p in before if p.startswith(ws)}
                 key = "excluded-file-written"
                 if newly:
